@@ -24,6 +24,7 @@
 #include <unistd.h>
 
 #include <fstream>
+#include <iostream>
 
 namespace ip
 {
@@ -252,8 +253,11 @@ void clean_dir(std::string const& dir, std::string const& file)
 }
 
 template <typename T, typename R>
-void workload(vf::Ctx& c, vf::RunCfg<T> const& cfg, std::vector<std::size_t> const& calls, std::size_t k0, char const* engine_name)
+void workload(vf::Ctx& c, vf::RunCfg<T> const& cfg, std::vector<std::size_t> const& calls, std::size_t k0, char const* engine_name, bool verbose)
 {
+    // the verbose writing mode prints to std::cout: silence it for the whole workload (children inherit the redirection)
+    struct Quiet : std::streambuf { int overflow(int ch) override { return ch; } std::streamsize xsputn(char const*, std::streamsize n) override { return n; } } quiet;
+    struct Restore { std::streambuf* old; ~Restore() { std::cout.rdbuf(old); } } restore{std::cout.rdbuf(&quiet)};
     using Chk = typename R::Chk;
     std::string const dir = (vf::files().cur.empty() ? std::string("/tmp/vf-c18-") + std::to_string(::getpid()) : vf::files().cur) + ".c18d/";
     std::string const file = dir + "run.chkpt";
@@ -277,7 +281,7 @@ void workload(vf::Ctx& c, vf::RunCfg<T> const& cfg, std::vector<std::size_t> con
     // the run under test: resumes from `earlier`, writes the checkpoint after every iteration
     auto run_under_test = [&]() {
         ip::iteration = static_cast<int>(k0);
-        hep::callback<Chk> inner(hep::callback_mode::silent_and_write_chkpt, file, T(0));
+        hep::callback<Chk> inner(verbose ? hep::callback_mode::verbose_and_write_chkpt : hep::callback_mode::silent_and_write_chkpt, file, T(0));
         auto cb = [inner](Chk const& k) mutable { ++ip::iteration; return inner(k); }; // calls made by the callback of iteration i carry i
         return R::run(cfg, earlier, rest, cb);
     };
@@ -308,7 +312,7 @@ void workload(vf::Ctx& c, vf::RunCfg<T> const& cfg, std::vector<std::size_t> con
         }
     }
     c.desc << vf::type_name<T>::get() << ' ' << engine_name << ' ' << cfg.describe() << " calls=" << vf::show(calls) << " earlier-run-iterations=" << k0
-           << " tracked-calls=" << seq.size() << " final-size=" << ref[n].size();
+           << (verbose ? " verbose_and_write_chkpt" : " silent_and_write_chkpt") << " tracked-calls=" << seq.size() << " final-size=" << ref[n].size();
 
     std::size_t crashes = 0, inside = 0;
     auto check_after = [&](long pos, long pre, char const* kind) {
@@ -412,14 +416,15 @@ void run_t(vf::Ctx& c)
     for (std::size_t i = 0; i != n; ++i) { calls.push_back(t.pick(6) == 0 ? t.range(0, 2) : 2 + t.range(0, 60)); }
     std::size_t const k0 = t.flag() ? t.pick(n) : 0;
     bool const small_engine = t.flag();
+    bool const verbose = t.pick(3) == 0;
     if (small_engine)
     {
         using E = std::minstd_rand;
         switch (cfg.kind)
         {
-        case vf::PLAIN: workload<T, vf::Plain<T, E>>(c, cfg, calls, k0, "minstd_rand"); break;
-        case vf::VEGAS: workload<T, vf::Vegas<T, E>>(c, cfg, calls, k0, "minstd_rand"); break;
-        default: workload<T, vf::Multi<T, E>>(c, cfg, calls, k0, "minstd_rand"); break;
+        case vf::PLAIN: workload<T, vf::Plain<T, E>>(c, cfg, calls, k0, "minstd_rand", verbose); break;
+        case vf::VEGAS: workload<T, vf::Vegas<T, E>>(c, cfg, calls, k0, "minstd_rand", verbose); break;
+        default: workload<T, vf::Multi<T, E>>(c, cfg, calls, k0, "minstd_rand", verbose); break;
         }
     }
     else
@@ -427,9 +432,9 @@ void run_t(vf::Ctx& c)
         using E = std::mt19937;
         switch (cfg.kind)
         {
-        case vf::PLAIN: workload<T, vf::Plain<T, E>>(c, cfg, calls, k0, "mt19937"); break;
-        case vf::VEGAS: workload<T, vf::Vegas<T, E>>(c, cfg, calls, k0, "mt19937"); break;
-        default: workload<T, vf::Multi<T, E>>(c, cfg, calls, k0, "mt19937"); break;
+        case vf::PLAIN: workload<T, vf::Plain<T, E>>(c, cfg, calls, k0, "mt19937", verbose); break;
+        case vf::VEGAS: workload<T, vf::Vegas<T, E>>(c, cfg, calls, k0, "mt19937", verbose); break;
+        default: workload<T, vf::Multi<T, E>>(c, cfg, calls, k0, "mt19937", verbose); break;
         }
     }
 }
